@@ -270,7 +270,8 @@ impl Codec {
     pub fn encode_int(&self, x: i64) -> i64 {
         if let CodecOp::Add(_, y) = self.ops[0] {
             assert_eq!(self.ops.len(), 1);
-            x - y
+            // A constant beyond the representable range compares like the nearest representable one
+            x.saturating_sub(y)
         } else if let CodecOp::ToI64(_) = self.ops[0] {
             assert_eq!(self.ops.len(), 1);
             x
